@@ -13,6 +13,8 @@ package keeper
 import (
 	"bytes"
 
+	sdk "github.com/cosmos/cosmos-sdk/types"
+
 	"github.com/circlefin/noble-cctp/x/cctp/types"
 	"github.com/circlefin/noble-cctp/x/cctp/verifrt"
 )
@@ -128,6 +130,10 @@ func Harness_C18_VerifierSameVerdictAndTextEveryTime() {
 // the replayable special case of the lemma below: an attestation by honest attester 1 is verified
 // against the set {attester 0}, then against {attester 1} (accepted), then against {attester 0} again
 func Harness_C18_VerdictNotRetainedAcrossAttesterSets() {
+	verdictNotRetained("C18/verifier/verdict-not-retained-across-attester-sets")
+}
+
+func verdictNotRetained(label string) {
 	msg := verifrt.NondetBytes("m_message", 8)
 	a0, a1 := verifrt.HonestAttester(0), verifrt.HonestAttester(1)
 	verifrt.Assume(a0 != a1)
@@ -140,7 +146,7 @@ func Harness_C18_VerdictNotRetainedAcrossAttesterSets() {
 	verifrt.Assume(ea == nil)
 	e2 := VerifyAttestationSignatures(msg, append([]byte{}, att...), set0, 1)
 	verifrt.Cover("compared")
-	verifrt.Assert("C18/verifier/verdict-not-retained-across-attester-sets", (e1 == nil) == (e2 == nil))
+	verifrt.Assert(label, (e1 == nil) == (e2 == nil))
 }
 
 // the attestation verdict for (message, attestation, attester set, threshold) does not depend on what
@@ -247,4 +253,29 @@ func c18concurrent(idx int) {
 	verifrt.Parallel(body(h1), body(h2))
 	verifrt.Cover("ran")
 	verifrt.Assert("C18/handler/concurrent-instances-share-no-written-memory", !verifrt.Raced())
+}
+
+// runDiscarded executes privileged transaction idx, submitted by the holder of its role, on a branch of
+// the current state (sdk.Context.CacheContext) that is never written: what it stored is gone, and
+// nothing it left elsewhere (keeper fields, package-level memory) may influence later transactions.
+func (h *H) runDiscarded(idx int) {
+	root := h.Env.Ctx
+	branch, _ := sdk.UnwrapSDKContext(root).CacheContext()
+	h.Env.Ctx = branch
+	verifrt.PushPrefix("disc_")
+	ok, _ := h.callAdmin(idx, h.Role[specSlot(idx)])
+	verifrt.PopPrefix()
+	h.Env.Ctx = root
+	verifrt.Assume(ok)
+	verifrt.Cover("C18/discarded-transaction-ran-first")
+}
+
+// the acceptance specifications of deposit (C08) and receive (C03) are judged on the stored state even
+// after the same keeper instance executed a privileged transaction on a branch that was thrown away
+// (and after another instance sent a message, as in the lemmas above)
+func c18depositAfterDiscarded(discarded int) {
+	producerLemmaFull(hDepositForBurn, "C08", false, hSendMessage, func(h *H) { h.runDiscarded(discarded) })
+}
+func c18receiveAfterDiscarded(discarded int) {
+	receiveLemmaFull("C03", false, 1, hSendMessage, func(h *H) { h.runDiscarded(discarded) })
 }
